@@ -8,6 +8,7 @@ package main
 
 import (
 	"fmt"
+	"go/token"
 	"go/types"
 	"strings"
 
@@ -239,6 +240,28 @@ func (te *tokenEngine) errorReturn(ret *ssa.Return, path []ssa.Instruction) bool
 	}
 	if _, ok := ev.(*ssa.MakeInterface); ok {
 		return true
+	}
+	return pathAsserts(path, func(c ssa.Value, truth bool) bool { return assertsNonNil(c, truth, ev) })
+}
+
+// certainError: ev, an error value as a path determines it, is certainly non-nil on that path — a constructed error, or
+// a value the path has tested and found non-nil.
+func certainError(w *World, ev ssa.Value, path []ssa.Instruction) bool {
+	if isNilConst(ev) {
+		return false
+	}
+	switch x := ev.(type) {
+	case *ssa.Call:
+		k := w.callKey(x)
+		if k == "errors.New" || k == "fmt.Errorf" || alwaysNonNil(x.Call.StaticCallee(), 0) {
+			return true
+		}
+	case *ssa.MakeInterface:
+		return true
+	case *ssa.UnOp:
+		if g, ok := x.X.(*ssa.Global); ok && x.Op == token.MUL && strings.HasPrefix(g.Name(), "Err") {
+			return true // a package-level sentinel error
+		}
 	}
 	return pathAsserts(path, func(c ssa.Value, truth bool) bool { return assertsNonNil(c, truth, ev) })
 }
